@@ -38,15 +38,25 @@ func run(e *Env) error {
 	e.ShardBytes = 60000
 	e.Rule = "accessor programs: for each of the six BeaconState view types x {custom_tiny, custom_small}: a random in-limit state (spec-driven), then random typed accessor calls on it and on up to two CopyState copies: every Set<Field> setter with a random in-limit value, Balances().SetBalance/AppendBalance, Block/StateRoots().SetRoot, RandaoMixes().SetRandomMix, Slashings().Reset/AddSlashing, Eth1DataVotes().Append/Reset, HistoricalRoots().Append, Validators().Validator(i).Set*, IncrementDepositIndex, SeedRandao, CopyState; after every step every live view is observed (all getters, bytes, state root, all field roots). sibling transition: a 64-validator genesis state (deterministic keys), CopyState + EpochsContext.Clone, ProcessSlots across an epoch boundary on the copy: the original's bytes and root must be untouched, then the original is mutated and the advanced copy must be untouched. non-trivial = at least one write; distinct by program"
 	for fork := range sszgen.ForkStates {
-		for _, pi := range []int{3, 2} {
+		for _, pi := range []int{3, 2, 1} {
 			for k := 0; k < e.N(2, 8); k++ {
+				if pi == 1 && k != 1 {
+					continue // minimal preset (registry limit 2^40): only the AddValidator burst program
+				}
 				p, err := sszgen.NewStateProg(s, pi, fork, e.Rng.Fork(), e.N(150, 400))
 				if err != nil {
 					return err
 				}
 				p.EmptyBalancesFirst = k == 0
 				p.SetterSweep = k == 0 && pi == 3
-				p.Run(e.N(10, 30))
+				if k == 1 {
+					p.ForceAdd = 16
+				}
+				if p.ForceAdd > 0 {
+					p.Run(18)
+				} else {
+					p.Run(e.N(10, 30))
+				}
 				okAll := true
 				for _, st := range p.Steps {
 					okAll = okAll && st.GoOK
